@@ -59,6 +59,11 @@ def gen(tier, rng, harness=None):
         lines += ["core2.reparse %s %s" % (ts, gs), "!core2.rt %s %s" % (ts, gs)]
     for t in modprops.corpus_texts():
         lines.append("!mod.stable - %s" % hx(t))
+    # every construct of the one-construct catalogue (all enum keywords, attributes, instructions, constants, constant expressions,
+    # debug-info nodes, named non-struct types, scalable vectors ...): the printed module must be accepted and be a fixpoint
+    from . import catalog, regen
+    for name, text, frags in catalog.all_entries(regen.enum_table(harness)):
+        lines.append("!mod.stable - %s" % hx(text))
     for m, text, sk in modprops.gen_modules(rng, n):
         lines.append("!mod.stable %s %s" % (hx(sk), hx(text)))
         t2, _ = modgen.render(m, rng, shuffle=True)
